@@ -623,3 +623,101 @@ def _derives_from(body, operand, local, depth=0):
                     if _derives_from(body, o, local, depth + 1):
                         return True
     return False
+
+
+# --------------------------------------------------------------------- R-CURSOR-STATE
+
+from cond import TRANSPARENT_PREFIX as _TP
+_TP_MATCH = _TP + ("control::group::sse2::Group::match_", "control::group::generic::Group::match_", "control::group::neon::Group::match_")
+
+WALKERS = ("raw::RawIterRange::next_impl", "raw::RawIterRange::fold_impl")
+CURSOR_FIELDS = ("current_group", "data", "next_ctrl")
+
+
+def r_cursor_state(F, V):
+    """Sibling agreement of the two group walkers (next_impl, fold_impl): both consume the bit
+    iterator stored in self.current_group, every freshly loaded group is stored into it, and
+    current_group / data / next_ctrl advance together. This is what makes `fold` continue
+    exactly where `next` stopped."""
+    R = Result("R-CURSOR-STATE", F.cfg)
+    n = 0
+    for p in WALKERS:
+        body = F.bodies.get(p)
+        if body is None:
+            R.undec("%s not found" % p)
+            continue
+        n += 1
+        problems = []
+        bit_next = [(i, t) for i, t in body.calls() if (callee_path(t) or "").endswith("<BitMaskIter as Iterator>::next")]
+        if not bit_next:
+            problems.append("no BitMaskIter::next call: the walker does not iterate a stored bit mask")
+        for i, t in bit_next:
+            r, path = deep_root(body, t["args"][0]["p"]) if t["args"] and t["args"][0]["k"] in ("copy", "move") else (None, [])
+            if r != 1 or "current_group" not in path:
+                problems.append("bit indices are taken from a bit mask that is not `self.current_group`: elements of the current group that were already yielded are visited again (or skipped)")
+        loads = [(i, t) for i, t in body.calls() if "Group::load" in (callee_path(t) or "")]
+        stores = {f: [] for f in CURSOR_FIELDS}
+        for i, k, s in body.stmts():
+            if s["k"] == "assign":
+                lf = last_field(s["p"])
+                if lf and lf["name"] in stores and body.root_of_place(s["p"])[0] == 1 and (lf.get("adt") or "").endswith("RawIterRange"):
+                    stores[lf["name"]].append((i, s))
+        for i, t in loads:
+            ok = False
+            for (bi, s) in stores["current_group"]:
+                S = sources(body, s["rv"]["op"], transparent=_TP_MATCH) if s["rv"]["k"] == "use" else None
+                if S and any(bb == i for lst in S.calls.values() for bb, _ in lst):
+                    ok = True
+            if not ok:
+                problems.append("a freshly loaded group is not stored into `self.current_group`")
+        if loads:
+            for f in ("data", "next_ctrl"):
+                if not stores[f]:
+                    problems.append("`self.%s` is not advanced together with the group reload" % f)
+                else:
+                    for (bi, s) in stores[f]:
+                        if not any(body.dominates(li, bi) for li, _ in loads):
+                            problems.append("`self.%s` is advanced on a path that did not reload the group" % f)
+        key = "%s|cursor" % p
+        if problems:
+            R.violation(key, body, "; ".join(sorted(set(problems))))
+            R.inst(key, "; ".join(sorted(set(problems))), "violation", True, where(body))
+        else:
+            R.inst(key, "iterates self.current_group; reloads are stored into it; data and next_ctrl advance with the reload", "ok", True, where(body))
+    R.floor("group walkers", n, {"posctl": 0}.get(F.cfg, 2))
+    return R
+
+
+# --------------------------------------------------------------------- R-REHASH-LOOP
+
+def r_rehash_loop(F, V):
+    """In rehash_in_place, after two elements were swapped the element now sitting in the current
+    slot has not been rehashed yet: control must come back to the hasher for the same slot before
+    the outer loop advances."""
+    R = Result("R-REHASH-LOOP", F.cfg)
+    body = F.bodies.get("raw::RawTableInner::rehash_in_place")
+    if body is None:
+        R.undec("raw::RawTableInner::rehash_in_place not found")
+        return R
+    swaps = [i for i, t in body.calls() if "swap_nonoverlapping" in (callee_path(t) or "") or (callee_path(t) or "").endswith("ptr::swap")]
+    hashers = [i for i, t in body.calls() if t["f"]["k"] != "fn" or (t["f"].get("self_ty", {}).get("k") == "dyn")]
+    nexts = [i for i, t in body.calls() if (callee_path(t) or "").endswith("<Range as Iterator>::next") or t["f"].get("method") == "next"]
+    key = "raw::RawTableInner::rehash_in_place|swap-then-rehash"
+    if not swaps or not hashers or not nexts:
+        R.undec("rehash_in_place: swap (%d) / hasher (%d) / outer next (%d) sites not all found" % (len(swaps), len(hashers), len(nexts)))
+        return R
+    bad = False
+    for s in swaps:
+        reach = set()
+        for x in body.nsucc[s]:
+            reach |= body.reachable_from(x, tuple(hashers))
+        if any(nx in reach for nx in nexts) or any(r in reach for r in body.returns):
+            bad = True
+    if bad:
+        R.violation(key, body, "after swap_nonoverlapping the outer loop can advance (or the function return) without the swapped-in element being hashed again: it stays in a slot marked DELETED, is never yielded or dropped, and `items` exceeds the number of FULL bytes",
+                    line=line_of(body, bb=swaps[0]))
+        R.inst(key, "swapped-in element not re-processed", "violation", True, where(body, bb=swaps[0]))
+    else:
+        R.inst(key, "after a swap control returns to the hasher for the same slot before the outer loop advances", "ok", True, where(body, bb=swaps[0]))
+    # the element moved into an EMPTY target frees its old slot
+    return R
